@@ -13,6 +13,14 @@
                             (tests that the valuation does not decide are followed both ways, which
                             over-approximates the paths: it can only add alarms, never hide one)
 
+  splice_valued(...)        helpers that hand an *outcome* back to their caller which branches on it
+                            (`while await self._attempt(n): n += 1`, `again = await ...; if not again: break`,
+                            `match await ...`, a flag loop, a tuple result, an enum member, the caught exception
+                            or None): the helper's body takes the place of the statement and every `return v`
+                            continues with what the caller does for that value -- the pair reads as one function,
+                            so the rules on the supervised run loop are stated on the whole unit wherever
+                            `await self._run()` sits inside it
+
 Valuation constructors: is_none, less_than, positive, nonempty, truthy.
 
 With these a guard is never matched textually: a rule asks "under `limit is not None and n >= limit`
@@ -521,6 +529,582 @@ def splice_guarded(prog: Program, fn: FuncInfo, root: ast.AST) -> ast.AST | None
     return root
 
 
+# --------------------------------------------------------------------------------- outcome-reporting helpers
+_JUMPS = (ast.Return, ast.Raise, ast.Continue, ast.Break)
+
+
+def _static_value(e: ast.AST) -> tuple[str, Any] | None:
+    """A value that is known without running anything: a literal constant, or an upper-case member of a
+    class / module (`_Outcome.RESTART`, `enum.X`): ("c", value) / ("n", dotted name)."""
+    if isinstance(e, ast.Constant):
+        return ("c", (type(e.value).__name__, e.value))
+    if isinstance(e, ast.Attribute) and e.attr.isupper():
+        v: ast.AST = e
+        while isinstance(v, ast.Attribute):
+            v = v.value
+        if isinstance(v, ast.Name):
+            return ("n", u(e))
+    return None
+
+
+def static_truth(e: ast.AST) -> bool | None:
+    """Truth value of a test made of static values only (Kleene; None: not decided).  Distinct upper-case
+    members of the same class are taken to be distinct, non-None objects (enum members)."""
+    if isinstance(e, ast.Constant):
+        return bool(e.value)
+    if isinstance(e, ast.UnaryOp) and isinstance(e.op, ast.Not):
+        r = static_truth(e.operand)
+        return None if r is None else not r
+    if isinstance(e, ast.BoolOp):
+        rs = [static_truth(v) for v in e.values]
+        if isinstance(e.op, ast.And):
+            if any(r is False for r in rs):
+                return False
+            return True if all(r is True for r in rs) else None
+        if any(r is True for r in rs):
+            return True
+        return False if all(r is False for r in rs) else None
+    if isinstance(e, ast.IfExp):
+        c = static_truth(e.test)
+        if c is None:
+            a, b = static_truth(e.body), static_truth(e.orelse)
+            return a if a == b else None
+        return static_truth(e.body if c else e.orelse)
+    if isinstance(e, ast.Compare) and len(e.ops) == 1 and isinstance(e.ops[0], (ast.Is, ast.IsNot, ast.Eq, ast.NotEq)):
+        a, b = _static_value(e.left), _static_value(e.comparators[0])
+        if a is None or b is None:
+            return None
+        same: bool | None = None
+        if a == b:
+            same = True
+        elif a[0] == "c" and b[0] == "c":
+            same = bool(a[1][1] == b[1][1]) if isinstance(e.ops[0], (ast.Eq, ast.NotEq)) else False
+        elif a[0] == "n" and b[0] == "n":
+            same = False if a[1].rsplit(".", 1)[0] == b[1].rsplit(".", 1)[0] else None
+        else:
+            c = a if a[0] == "c" else b
+            same = False if c[1] in (("NoneType", None), ("bool", True), ("bool", False)) else None
+        if same is None:
+            return None
+        return same if isinstance(e.ops[0], (ast.Is, ast.Eq)) else not same
+    if isinstance(e, ast.Attribute) and _static_value(e) is not None:
+        return None  # an enum member as a test: its truthiness is its own business
+    return None
+
+
+def _kill(env: dict[str, ast.AST], node: ast.AST) -> None:
+    for n in ast.walk(node):
+        if isinstance(n, ast.Name) and isinstance(n.ctx, (ast.Store, ast.Del)):
+            env.pop(n.id, None)
+
+
+def fold_known(stmts: list[ast.stmt], env: dict[str, ast.AST], known: dict[str, ast.AST] | None = None
+               ) -> list[ast.stmt]:
+    """Constant propagation over a straight piece of code: locals bound to static values are followed
+    into the branch tests that read them and decided tests are replaced by the branch taken; code behind
+    a jump is dropped.  Only tests are folded, every other statement stays as it is.  `known`: names that
+    are not re-bound in `stmts` and stand for a value of known kind (a caught exception: not None)."""
+    out: list[ast.stmt] = []
+    known = known or {}
+    for st in stmts:
+        if isinstance(st, ast.If):
+            test = _SubstSided(env, known).visit(copy.deepcopy(st.test)) if env or known else st.test
+            tv = None if any(isinstance(x, (ast.Await, ast.NamedExpr, ast.Call)) for x in ast.walk(test)) \
+                else static_truth(test)
+            if tv is not None:
+                out += fold_known(list(st.body if tv else st.orelse), env, known)
+            else:
+                a = fold_known(list(st.body), dict(env), known)
+                b = fold_known(list(st.orelse), dict(env), known)
+                _kill(env, st)
+                out.append(ast.copy_location(ast.If(
+                    test=st.test, body=a or [ast.copy_location(ast.Pass(), st)], orelse=b), st))
+        else:
+            _kill(env, st)
+            if isinstance(st, ast.Assign) and len(st.targets) == 1 and isinstance(st.targets[0], ast.Name):
+                if _static_value(st.value) is not None:
+                    env[st.targets[0].id] = st.value
+                elif isinstance(st.value, ast.Name) and st.value.id in known \
+                        and not getattr(st.value, "_caller", False):
+                    env[st.targets[0].id] = known[st.value.id]
+            out.append(st)
+        if out and (isinstance(out[-1], _JUMPS) or (
+                isinstance(out[-1], ast.If) and out[-1].orelse and _all_paths_jump(out[-1].body)
+                and _all_paths_jump(out[-1].orelse))):
+            break
+    return out
+
+
+def _all_paths_jump(stmts: list[ast.stmt]) -> bool:
+    if not stmts:
+        return False
+    last = stmts[-1]
+    if isinstance(last, _JUMPS):
+        return True
+    return isinstance(last, ast.If) and bool(last.orelse) and _all_paths_jump(last.body) \
+        and _all_paths_jump(last.orelse)
+
+
+def _loose_jumps(stmts: list[ast.stmt]) -> bool:
+    """A `break` / `continue` that belongs to a loop outside `stmts`."""
+    for st in stmts:
+        if isinstance(st, (ast.Break, ast.Continue)):
+            return True
+        if isinstance(st, (ast.FunctionDef, ast.AsyncFunctionDef, ast.ClassDef)):
+            continue
+        loop = isinstance(st, (ast.For, ast.AsyncFor, ast.While))
+        for field in ("body", "orelse", "finalbody"):
+            sub = getattr(st, field, None)
+            if isinstance(sub, list) and sub and isinstance(sub[0], ast.stmt) and not (loop and field == "body"):
+                if _loose_jumps(sub):
+                    return True
+        for h in getattr(st, "handlers", []) or []:
+            if _loose_jumps(h.body):
+                return True
+        for c in getattr(st, "cases", []) or []:
+            if _loose_jumps(c.body):
+                return True
+    return False
+
+
+def _quiet(stmts: list[ast.stmt]) -> bool:
+    """Statements that neither raise nor suspend nor touch anything but locals (jumps, bindings of locals
+    to simple values, counting, logging): where exactly they run relative to an enclosing try / with of
+    the code they are copied into makes no difference."""
+    for st in stmts:
+        if isinstance(st, (ast.Pass, ast.Break, ast.Continue)):
+            continue
+        if isinstance(st, ast.Return) and (st.value is None or isinstance(st.value, (ast.Constant, ast.Name))):
+            continue
+        if isinstance(st, ast.Expr) and (isinstance(st.value, ast.Constant) or (
+                isinstance(st.value, ast.Call) and is_logging_call(st.value))):
+            continue
+        if isinstance(st, (ast.Assign, ast.AugAssign, ast.AnnAssign)):
+            tgts = st.targets if isinstance(st, ast.Assign) else [st.target]
+            if all(isinstance(t, ast.Name) for t in tgts) and st.value is not None and all(
+                    isinstance(x, (ast.Name, ast.Constant, ast.BinOp, ast.operator, ast.expr_context, ast.UnaryOp,
+                                   ast.unaryop)) for x in ast.walk(st.value)):
+                continue
+        if isinstance(st, ast.If) and _effect_free(st.test) and _quiet(st.body) and _quiet(st.orelse):
+            continue
+        return False
+    return True
+
+
+def _first_evaluated(expr: ast.AST, target: ast.AST) -> bool:
+    """Is `target` the first thing `expr` evaluates (so that its value can stand in its place)?"""
+    e = expr
+    while True:
+        if e is target:
+            return True
+        if isinstance(e, ast.UnaryOp):
+            e = e.operand
+        elif isinstance(e, ast.NamedExpr) and isinstance(e.target, ast.Name):
+            e = e.value
+        elif isinstance(e, ast.Compare):
+            e = e.left
+        elif isinstance(e, ast.BoolOp):
+            e = e.values[0]
+        else:
+            return False
+
+
+def _valued_helper(prog: Program, fn: FuncInfo, root: ast.AST, nested: dict[str, Any], expr: ast.AST | None
+                   ) -> tuple[ast.AST, ast.Call, Any] | None:
+    """(the [awaited] call expression, the call, the helper) when `expr` evaluates -- first of all -- a
+    private helper that reports an outcome through its return value and could not be read as one
+    expression: a coroutine awaited in place, or a function with statements around its returns."""
+    if expr is None:
+        return None
+    for x in ast.walk(expr):
+        call = x.value if isinstance(x, ast.Await) else x
+        if not isinstance(call, ast.Call) or (not isinstance(x, ast.Await) and any(
+                isinstance(p, ast.Await) and p.value is x for p in ast.walk(expr))):
+            continue
+        h = _helper_target(prog, fn, call, nested)
+        if h is None or h is root or h.name in ANCHOR_NAMES or h.name == getattr(root, "name", None) \
+                or h.decorator_list and not all(isinstance(d, ast.Name) and d.id in ("staticmethod", "override")
+                                                for d in h.decorator_list):
+            continue
+        if isinstance(h, ast.AsyncFunctionDef) != isinstance(x, ast.Await):
+            continue
+        body = _strip_doc(h.body)
+        rets = [n for b in body for n in walk_no_nested(b) if isinstance(n, ast.Return)]
+        if not body or len(body) > 40 or not any(
+                r.value is not None and not (isinstance(r.value, ast.Constant) and r.value.value is None)
+                for r in rets) or len(rets) > 8 \
+                or any(isinstance(n, (ast.Yield, ast.YieldFrom)) for b in body for n in walk_no_nested(b)):
+            continue
+        if _first_evaluated(expr, x):
+            return x, call, h
+    return None
+
+
+def _tail_return_to_else(body: list[ast.stmt]) -> None:
+    """`try: A; return v  except ...` == `try: A  except ...  else: return v` for a value that cannot raise."""
+    for b in body:
+        for n in walk_no_nested(b):
+            if isinstance(n, ast.Try) and len(n.body) > 1 and not n.orelse and isinstance(n.body[-1], ast.Return) \
+                    and (n.body[-1].value is None or isinstance(n.body[-1].value, (ast.Constant, ast.Name))
+                         or _static_value(n.body[-1].value) is not None):
+                n.orelse = [n.body.pop()]
+
+
+def _suites(node: ast.AST) -> Iterable[list[ast.stmt]]:
+    for n in walk_no_nested(node):
+        for field in ("body", "orelse", "finalbody"):
+            sub = getattr(n, field, None)
+            if isinstance(sub, list) and sub and isinstance(sub[0], ast.stmt):
+                yield sub
+        for h in getattr(n, "handlers", []) or []:
+            yield h.body
+        for c in getattr(n, "cases", []) or []:
+            yield c.body
+
+
+def _rotate(w: ast.While) -> ast.stmt:
+    """`while T: B`  ==  `if T: while True: B; if not T: break` (T effect-free, tested again before every
+    `continue`): the test at the end of a round sits where the round's outcome is known."""
+    def guard() -> ast.stmt:
+        return ast.copy_location(ast.If(
+            test=ast.UnaryOp(op=ast.Not(), operand=copy.deepcopy(w.test)),
+            body=[ast.copy_location(ast.Break(), w)], orelse=[]), w)
+
+    def fix(stmts: list[ast.stmt]) -> None:
+        k = 0
+        while k < len(stmts):
+            b = stmts[k]
+            if isinstance(b, ast.Continue):
+                stmts[k:k + 1] = [guard(), b]
+                k += 2
+                continue
+            if not isinstance(b, (ast.FunctionDef, ast.AsyncFunctionDef, ast.ClassDef)):
+                loop = isinstance(b, (ast.For, ast.AsyncFor, ast.While))
+                for field in ("body", "orelse", "finalbody"):
+                    sub = getattr(b, field, None)
+                    if isinstance(sub, list) and sub and isinstance(sub[0], ast.stmt) and not (loop and field == "body"):
+                        fix(sub)
+                for hd in getattr(b, "handlers", []) or []:
+                    fix(hd.body)
+                for cs in getattr(b, "cases", []) or []:
+                    fix(cs.body)
+            k += 1
+
+    fix(w.body)
+    if not _all_paths_jump(w.body):
+        w.body.append(guard())
+    inner = ast.copy_location(ast.While(test=ast.copy_location(ast.Constant(True), w.test), body=w.body, orelse=[]), w)
+    return ast.copy_location(ast.If(test=w.test, body=[inner], orelse=[]), w)
+
+
+def _match_to_ifs(m: ast.Match) -> list[ast.stmt] | None:
+    """`match E: case V1: B1 / case V2 | V3: B2 / case _: B3` over values and singletons as
+    `x = E; if x == V1: B1 elif x == V2 or x == V3: B2 else: B3` (None for any other pattern)."""
+    name = f"outcome__{getattr(m, 'lineno', 0)}"
+
+    def cond(p: ast.pattern) -> ast.expr | None:
+        ref = ast.Name(id=name, ctx=ast.Load())
+        if isinstance(p, ast.MatchValue):
+            return ast.Compare(left=ref, ops=[ast.Eq()], comparators=[p.value])
+        if isinstance(p, ast.MatchSingleton):
+            return ast.Compare(left=ref, ops=[ast.Is()], comparators=[ast.Constant(value=p.value)])
+        if isinstance(p, ast.MatchOr):
+            parts = [cond(x) for x in p.patterns]
+            return None if any(x is None for x in parts) else ast.BoolOp(op=ast.Or(), values=parts)  # type: ignore[arg-type]
+        if isinstance(p, ast.MatchAs) and p.pattern is None and p.name is None:
+            return ast.Constant(value=True)
+        return None
+
+    chain: list[ast.stmt] = []
+    for case in reversed(m.cases):
+        c = cond(case.pattern)
+        if c is None or (case.guard is not None and not _effect_free(case.guard)):
+            return None
+        if case.guard is not None:
+            c = ast.BoolOp(op=ast.And(), values=[c, case.guard])
+        if isinstance(c, ast.Constant):
+            chain = list(case.body)
+        else:
+            chain = [ast.copy_location(ast.If(test=c, body=list(case.body), orelse=chain), m)]
+    head = ast.copy_location(ast.Assign(targets=[ast.Name(id=name, ctx=ast.Store())], value=m.subject), m)
+    return [head] + (chain or [ast.copy_location(ast.Pass(), m)])
+
+
+def splice_valued(prog: Program, fn: FuncInfo, root: ast.AST) -> ast.AST | None:
+    """Splice private helpers that hand an *outcome* back to their caller, which branches on it:
+
+        while await self._attempt(n): n += 1            restart = await self._attempt(n)
+                                                        if not restart: break
+        if await self._attempt(n): ... else: ...        return await self._supervise()
+
+    The helper's body takes the place of the statement and every `return v` in it continues with a copy
+    of what the caller does next *for that value*: the test decided for `v` (when `v` is a constant, only
+    the branch taken is kept), then the rest of the caller up to its next jump (`continue` at the end of a
+    loop body, `return` at the end of the function).  The result is an ordinary function whose CFG has the
+    paths of the pair caller + helper, outcome by outcome -- no flag variable is left to be guessed.
+    Refused (the call stays opaque) when a continuation would have to be copied into a place where it
+    does not mean the same: behind a `return` inside a loop of the helper while the caller's continuation
+    jumps, or into a try body / with block / finally of the helper unless it is quiet (see _quiet).
+    Returns a new tree, or None when nothing was spliced."""
+    root = copy.deepcopy(root)
+    spliced_names = set(getattr(root, "_spliced", ()))
+    changed = False
+    refused: set[int] = set()  # (ids of statements of `root`, which stays alive)
+    for _round in range(6):
+        nested = {n.name: n for n in ast.walk(root)
+                  if isinstance(n, (ast.FunctionDef, ast.AsyncFunctionDef)) and n is not root}
+        # `while T(h()): B else: E`  ==  `while True: if T(h()): B  else: E; break`
+        for w in [n for n in walk_no_nested(root) if isinstance(n, ast.While)]:
+            if _valued_helper(prog, fn, root, nested, w.test) is not None:
+                leave: list[ast.stmt] = list(w.orelse) + [ast.copy_location(ast.Break(), w)]
+                w.body = [ast.copy_location(ast.If(test=w.test, body=w.body, orelse=leave), w)]
+                w.test = ast.copy_location(ast.Constant(True), w.test)
+                w.orelse = []
+        # `match h(): case A: ... case B: ...` over values: an if-chain on a local
+        for suite_ in list(_suites(root)):
+            for idx, m in enumerate(suite_):
+                if isinstance(m, ast.Match) and _valued_helper(prog, fn, root, nested, m.subject) is not None:
+                    chain = _match_to_ifs(m)
+                    if chain is not None:
+                        suite_[idx:idx + 1] = [ast.fix_missing_locations(x) for x in chain]
+        # `flag = True; while flag: flag = h() ...`: the loop test reads the outcome of the round
+        def outcome_names(stmts: list[ast.stmt]) -> set[str]:
+            out: set[str] = set()
+            for b in stmts:
+                if isinstance(b, (ast.Assign, ast.AnnAssign)) and b.value is not None \
+                        and _valued_helper(prog, fn, root, nested, b.value) is not None:
+                    out |= _names_stored(b)
+                elif isinstance(b, ast.If):
+                    if _valued_helper(prog, fn, root, nested, b.test) is not None:
+                        out |= _names_stored(b.test)
+                    out |= outcome_names(b.body) | outcome_names(b.orelse)
+            return out
+
+        for suite_ in list(_suites(root)):
+            for idx, w in enumerate(suite_):
+                if isinstance(w, ast.While) and not w.orelse and not isinstance(w.test, ast.Constant) \
+                        and _effect_free(w.test) and id(w) not in refused and outcome_names(w.body) & {
+                            x.id for x in ast.walk(w.test) if isinstance(x, ast.Name)}:
+                    suite_[idx] = _rotate(w)
+        found: list[tuple[list[ast.stmt], int, list[ast.stmt] | None]] = []
+
+        def search(suite: list[ast.stmt], after: list[ast.stmt] | None) -> None:
+            for i, st in enumerate(suite):
+                if found:
+                    return
+                if id(st) in refused:
+                    continue
+                rest = (suite[i + 1:] + after) if after is not None else None
+                own = st.test if isinstance(st, ast.If) else st.value if isinstance(
+                    st, (ast.Assign, ast.AnnAssign, ast.Expr, ast.Return)) else None
+                if _valued_helper(prog, fn, root, nested, own) is not None and (
+                        rest is not None or isinstance(st, ast.Return)):
+                    found.append((suite, i, rest))
+                    return
+                if isinstance(st, (ast.FunctionDef, ast.AsyncFunctionDef, ast.ClassDef)):
+                    continue
+                if isinstance(st, ast.If):
+                    search(st.body, rest)
+                    search(st.orelse, rest)
+                elif isinstance(st, (ast.While, ast.For, ast.AsyncFor)):
+                    search(st.body, [ast.copy_location(ast.Continue(), st)])
+                    search(st.orelse, rest)
+                elif isinstance(st, ast.Try):
+                    # a handler / the else clause is left for what follows the try statement (a `finally`
+                    # would run in between; the try body is left for the else clause under the handlers' eyes)
+                    after_try = rest if not st.finalbody else None
+                    search(st.body, None)
+                    for hd in st.handlers:
+                        search(hd.body, after_try)
+                    search(st.orelse, after_try)
+                    search(st.finalbody, None)
+                else:
+                    for field in ("body", "orelse", "finalbody"):
+                        sub = getattr(st, field, None)
+                        if isinstance(sub, list) and sub and isinstance(sub[0], ast.stmt):
+                            search(sub, None)
+                    for hd in getattr(st, "handlers", []) or []:
+                        search(hd.body, None)
+                    for cs in getattr(st, "cases", []) or []:
+                        search(cs.body, None)
+
+        search(root.body, [ast.copy_location(ast.Return(value=None), root)])  # type: ignore[attr-defined]
+        if not found:
+            break
+        suite, i, rest = found[0]
+        st = suite[i]
+        own = st.test if isinstance(st, ast.If) else st.value  # type: ignore[attr-defined]
+        hit = _valued_helper(prog, fn, root, nested, own)
+        assert hit is not None
+        target, call, h = hit
+        binds = _bind(h, call)
+        body = copy.deepcopy(_strip_doc(h.body))
+        _tail_return_to_else(body)
+        if not _all_paths_jump(body):
+            body.append(ast.copy_location(ast.Return(value=None), st))  # (falling off the end)
+        problems: list[str] = []
+
+        stored_h = set().union(*[_names_stored(b) for b in body]) if body else set()
+
+        def site_for(value: ast.AST | None, at: ast.stmt, excs: frozenset[str]) -> list[ast.stmt]:
+            """What the caller does with the outcome `value`, up to its next jump."""
+            v = copy.deepcopy(value) if value is not None else ast.Constant(None)
+            ast.copy_location(v, at)
+            whole = own is target
+            hoist: list[ast.stmt] = []
+            if not whole:  # `not h()`, `h() is X`, `(x := h())`: the caller's expression around the outcome
+                memo: dict[int, Any] = {}
+                expr = _mark(copy.deepcopy(own, memo))
+                _replace_node(expr, memo[id(target)], v, awaited=True)
+                for ne in [x for x in ast.walk(expr) if isinstance(x, ast.NamedExpr) and x.value is v
+                           and isinstance(x.target, ast.Name)]:
+                    hoist.append(ast.copy_location(ast.Assign(
+                        targets=[_mark(ast.Name(id=ne.target.id, ctx=ast.Store()))], value=v), st))
+                    nm = _mark(ast.Name(id=ne.target.id, ctx=ast.Load()))
+                    if expr is ne:
+                        expr = ast.copy_location(nm, ne)
+                    else:
+                        _replace_node(expr, ne, nm, awaited=True)
+            else:
+                expr = v
+            # an exception caught by the handler the `return` sits in is an object, never None
+            known: dict[str, ast.AST] = {n: ast.Constant(value=Ellipsis) for n in excs if n not in stored_h}
+            if isinstance(st, ast.Return):
+                return hoist + [ast.copy_location(ast.Return(value=expr), at)]
+            cont = [_mark(copy.deepcopy(x)) for x in (rest or [])]
+            if isinstance(st, ast.If):
+                head: list[ast.stmt] = [ast.copy_location(ast.If(
+                    test=expr, body=[_mark(copy.deepcopy(x)) for x in st.body],
+                    orelse=[_mark(copy.deepcopy(x)) for x in st.orelse]), st)]
+            elif isinstance(st, ast.Expr):
+                head = [] if _effect_free(expr) else [ast.copy_location(ast.Expr(value=expr), st)]
+            else:
+                tg = st.targets[0] if isinstance(st, ast.Assign) and len(st.targets) == 1 else \
+                    getattr(st, "target", None)
+                if isinstance(tg, ast.Name):
+                    head = [ast.copy_location(ast.Assign(targets=[_mark(copy.deepcopy(tg))], value=expr), st)]
+                elif whole and isinstance(tg, (ast.Tuple, ast.List)) and isinstance(v, ast.Tuple) \
+                        and len(tg.elts) == len(v.elts) and all(isinstance(e, ast.Name) for e in tg.elts) \
+                        and not any(isinstance(e, ast.Starred) for e in v.elts) and not any(
+                            # (bound one after the other: no component may read an earlier target)
+                            isinstance(x, ast.Name) and isinstance(binds.get(x.id), ast.Name)  # type: ignore[union-attr]
+                            and binds[x.id].id in {e.id for e in tg.elts[:j]}  # type: ignore[index,union-attr,attr-defined]
+                            for j, ve in enumerate(v.elts) for x in ast.walk(ve)):
+                    head = [ast.copy_location(ast.Assign(targets=[_mark(copy.deepcopy(e))], value=ve), st)
+                            for e, ve in zip(tg.elts, v.elts)]
+                else:
+                    problems.append("the result is bound to something else than local names")
+                    head = []
+            return fold_known(hoist + head + cont, {}, known)
+
+        def replace(stmts: list[ast.stmt], trys: tuple[tuple[ast.AST, str], ...], in_loop: bool,
+                    excs: frozenset[str] = frozenset()) -> None:
+            k = 0
+            while k < len(stmts):
+                b = stmts[k]
+                if isinstance(b, ast.Return):
+                    site = site_for(b.value, b, excs)
+                    if not isinstance(st, ast.Return):
+                        if not _all_paths_jump(site):
+                            problems.append("a continuation does not end in a jump")
+                        if in_loop and _loose_jumps(site):
+                            problems.append("return inside a loop of the helper, the caller's continuation jumps")
+                        if not _quiet(site) and any(
+                                where in ("body", "final", "with") or getattr(t, "finalbody", None) for t, where in trys):
+                            problems.append("a continuation would run inside a try body / with / finally of the helper")
+                        if any(where == "final" for _t, where in trys):
+                            problems.append("return inside finally")
+                    stmts[k:k + 1] = site
+                    k += len(site)
+                    continue
+                if isinstance(b, (ast.FunctionDef, ast.AsyncFunctionDef, ast.ClassDef)):
+                    k += 1
+                    continue
+                if isinstance(b, (ast.For, ast.AsyncFor, ast.While)):
+                    replace(b.body, trys, True, excs)
+                    replace(b.orelse, trys, in_loop, excs)
+                elif isinstance(b, ast.Try) or (hasattr(ast, "TryStar") and isinstance(b, ast.TryStar)):  # type: ignore[attr-defined]
+                    replace(b.body, trys + ((b, "body"),), in_loop, excs)
+                    for hd in b.handlers:
+                        replace(hd.body, trys + ((b, "handler"),), in_loop,
+                                excs | {hd.name} if hd.name and hd.type is not None else excs)
+                    replace(b.orelse, trys + ((b, "orelse"),), in_loop, excs)
+                    replace(b.finalbody, trys + ((b, "final"),), in_loop, excs)
+                elif isinstance(b, (ast.With, ast.AsyncWith)):
+                    replace(b.body, trys + ((b, "with"),), in_loop, excs)
+                elif isinstance(b, ast.If):
+                    replace(b.body, trys, in_loop, excs)
+                    replace(b.orelse, trys, in_loop, excs)
+                elif isinstance(b, ast.Match):
+                    for cs in b.cases:
+                        replace(cs.body, trys, in_loop, excs)
+                k += 1
+
+        if binds is None:
+            refused.add(id(st))
+            continue
+        replace(body, (), False)
+        if problems:
+            refused.add(id(st))  # (the call stays opaque: the rules say what they miss)
+            continue
+        # the helper's own names get out of the caller's way; the copied continuations keep theirs
+        locals_h: set[str] = set()
+        for b in body:
+            locals_h |= {n.id for n in ast.walk(b) if isinstance(n, ast.Name)
+                         and isinstance(n.ctx, (ast.Store, ast.Del)) and not getattr(n, "_caller", False)}
+        handlers_h = [x for b in body for x in ast.walk(b) if isinstance(x, ast.ExceptHandler) and x.name
+                      and not getattr(x, "_caller", False)]
+        locals_h |= {x.name for x in handlers_h}  # type: ignore[misc]
+        tag = h.name.strip("_")
+        ren = {n: f"{n}__{tag}" for n in locals_h | set(binds)}
+        pre: list[ast.stmt] = []
+        mapping: dict[str, ast.AST] = {}
+        for pname, arg in binds.items():
+            if pname not in locals_h and isinstance(arg, (ast.Name, ast.Attribute, ast.Constant)):
+                mapping[pname] = arg
+            else:
+                pre.append(ast.copy_location(ast.Assign(
+                    targets=[ast.Name(id=ren[pname], ctx=ast.Store())], value=arg), st))
+        for b in body:
+            for nn in ast.walk(b):
+                if isinstance(nn, ast.Name) and nn.id in ren and nn.id not in mapping \
+                        and not getattr(nn, "_caller", False):
+                    nn.id = ren[nn.id]
+        for x in handlers_h:
+            x.name = ren[x.name]  # type: ignore[index]
+        sub = _SubstHelper(mapping)
+        body = [sub.visit(b) for b in body]
+        for b in body:  # a later round treats what is now the caller's own code as such
+            for nn in ast.walk(b):
+                if isinstance(nn, ast.Name) and getattr(nn, "_caller", False):
+                    del nn._caller  # type: ignore[attr-defined]
+        if isinstance(st, ast.Return):
+            suite[i:i + 1] = pre + body
+        else:
+            suite[i:] = pre + body
+        spliced_names.add(h.name)
+        changed = True
+    if not changed:
+        return None
+    ast.fix_missing_locations(root)
+    root._spliced = spliced_names  # type: ignore[attr-defined]
+    return root
+
+
+class _SubstSided(ast.NodeTransformer):
+    """Known values of the caller's locals (`env`) go into the caller's names, known kinds of the helper's
+    names (`known`) into the helper's: a copied continuation keeps its side (see _mark)."""
+
+    def __init__(self, env: dict[str, ast.AST], known: dict[str, ast.AST]) -> None:
+        self.env, self.known = env, known
+
+    def visit_Name(self, node: ast.Name) -> ast.AST:  # noqa: N802
+        side = self.env if getattr(node, "_caller", False) else self.known
+        if isinstance(node.ctx, ast.Load) and node.id in side:
+            return ast.copy_location(copy.deepcopy(side[node.id]), node)
+        return node
+
+
 class _SubstHelper(ast.NodeTransformer):
     """Parameter substitution that leaves the names of a copied caller continuation alone."""
 
@@ -569,12 +1153,15 @@ class Flow:
                 # as "is the created task registered on every path".  Locals are resolved on
                 # demand by expand(), which never moves an effect.
                 node = inline_helpers(prog, fn)
-                for _ in range(2):
-                    # helpers the engine leaves alone because of guard-clause returns
+                for _ in range(3):
+                    # helpers the engine leaves alone because of guard-clause returns ...
                     node2 = splice_guarded(prog, fn, node)
-                    if node2 is None:
+                    # ... or because they report an outcome their caller branches on
+                    node3 = splice_valued(prog, fn, node2 if node2 is not None else node)
+                    if node2 is None and node3 is None:
                         break
-                    node = inline_helpers(prog, fn, node=node2)
+                    node = inline_helpers(prog, fn, node=node3 if node3 is not None else node2)
+                read_in = set(getattr(node, "_spliced", ()))
                 node = fold_diamonds(node)
                 self.fn = FuncInfo(fn.name, fn.module, node, fn.cls, fn.outer)
             except AnalysisError:
@@ -588,6 +1175,11 @@ class Flow:
         # helpers whose bodies were spliced in: the rules depend on them as well
         self.spliced: list[str] = []
         if normalise:
+            for name in sorted(read_in):  # (helpers read in through a helper that was read in)
+                target = prog.resolve_method(fn.cls, name) if fn.cls is not None else None
+                target = target or fn.module.functions.get(name)
+                if target is not None and target.qual != fn.qual:
+                    self.spliced.append(target.qual)
             def helper_calls(root: ast.AST) -> dict[str, int]:
                 out: dict[str, int] = {}
                 for c in ast.walk(root):
